@@ -765,7 +765,19 @@ struct Explorer {
     if (r.crashed || r.hang) return;
     bool interrupted = false;
     for (auto& e : r.events) if (e.kind == Event::kInterrupt) interrupted = true;
-    if (interrupted) return;
+    if (interrupted) {
+      // "removed after the command succeeds (kept when it fails)": a command that was stopped has not succeeded
+      for (auto& rc : r.cmds) {
+        if (!rc.killed || rc.spec.rsp.empty() || rc.rsp_content == kMissing) continue;
+        if (!after.Get(rc.spec.rsp)) {
+          Violation x; x.prop = "C16"; x.clause = "rspfile-removed-after-interrupt";
+          x.detail = "response file '" + rc.spec.rsp + "' was removed although its command was interrupted, not finished successfully";
+          x.facts.set("stmt", rc.spec.id());
+          out->push_back(x);
+        }
+      }
+      return;
+    }
     // ninja gave up because it could not write a response file, with nothing wrong on the disk (no injected fault on this
     // path): the file has to be writable wherever the manifest puts it -- next to an output whose directory ninja creates
     {
